@@ -92,7 +92,7 @@ def gen_bad_request(rng, cfg, nwatch):
                        'missing_property', 'ill_typed_property', 'bad_option',
                        'bad_option', 'bad_option', 'bad_signal', 'duplicate',
                        'singleton', 'owner', 'nonobject_properties',
-                       'odd_waiting', 'combo'])
+                       'odd_waiting', 'combo', 'odd_valid'])
     op = {'op': 'req', 'w': w, 'props': {}, 'waiting': rng.random() < 0.4,
           'place': 'now', 'defect': kind}
     p = op['props']
@@ -223,6 +223,17 @@ def gen_bad_request(rng, cfg, nwatch):
                   'start': rng.random() < 0.5})
         if rng.random() < 0.5:
             p['options'] = dict(rng.sample(VALID_OPTS, 2))
+    elif kind == 'odd_valid':
+        # well-typed values nobody checks the range of (accepted today): if
+        # a request carrying one is refused, then before anything is applied
+        op['cmd'] = 'set'
+        op['defect'] = 'odd_valid_value'
+        items = rng.sample(VALID_OPTS, rng.choice([1, 2])) + \
+            [('numprocesses', rng.choice([1, 2, 3]))]
+        rng.shuffle(items)
+        items.append(rng.choice([('max_age_variance', -1), ('max_retry', -1),
+                                 ('priority', -3)]))
+        p['options'] = dict(items)
     elif kind == 'combo':
         # options that are fine one by one and constrain each other: if the
         # request is refused, then as a whole
